@@ -79,12 +79,8 @@ def run_engine_property(ctx, pid, oracles, feat=None, faults=0.25, n=None, nstep
             hists.append(ec.gen_history(rnd, '%s_%d_%d' % (pid, seed, i), rnd.randrange(*nedges), rnd.randrange(*nsteps), feat=feat, faults=faults, wf_reads=wf_reads))
     if extra_hists: hists += extra_hists(ctx)
     rc, tr, err, out = ec.run_hists(hists)
-    if rc != 0:
-        last = [l for l in out if l.startswith('scenario ')]
-        sid = last[-1].split()[1] if last else '?'
-        hh = [h for h in hists if h.sid == sid]
-        ctx.violation('engine-crash', hh[0].text() if hh else '', 'the engine harness died (rc=%s) in scenario %s: %s' % (rc, sid, err[-500:]))
-        return
+    for hh, crc, cerr in getattr(ec.run_hists, 'crashes', []):
+        ctx.violation('engine-crash', hh.text(), 'ninja\'s engine died (signal/abort, rc=%s) in scenario %s: %s' % (crc, hh.sid, cerr.replace('\n', ' ')[-300:]))
     nbuilds = 0; seen_kinds = {}; nontriv = set(); samples = []
     for h in hists:
         bs = tr.get(h.sid)
